@@ -27,7 +27,12 @@ pub enum Sched {
 /// with a short custom message, sometimes with a LONG localised message (multi-byte characters at varying
 /// alignment around bytes 32…300) — code that stores, clips or formats the message must cope with all.
 pub fn fault(k: io::ErrorKind, salt: usize) -> io::Error {
-    match salt % 5 {
+    match salt % 6 {
+        5 => {
+            // what a TLS / websocket layer produces: its own kind, the OS error only quoted in the message
+            let os = io::Error::from_raw_os_error([104, 32, 110, 11, 4, 13][salt % 6]);
+            io::Error::new(k, format!("transport failed: {}", os))
+        }
         4 => {
             // an adapter-style error: the kind the transport reports, wrapping an inner io::Error of ANOTHER kind
             let inner = io::Error::new(if k == io::ErrorKind::UnexpectedEof { io::ErrorKind::TimedOut } else { io::ErrorKind::UnexpectedEof }, "inner cause");
